@@ -32,6 +32,7 @@ type knobs struct {
 	pCtxVals    float64
 	pCreds      float64
 	pTInt       float64
+	pCloseRace  float64
 	maxMsgs     int
 	cloners     []int
 	allMsgKinds bool
@@ -417,6 +418,23 @@ func (g *gen) rpc(id int) *RPC {
 			}
 		}
 		if len(a) > 0 && len(b) > 0 {
+			if g.p(k.pCloseRace) {
+				// CloseSend issued by the other goroutine, racing the sends
+				var a2 []Op
+				moved := false
+				for _, o := range a {
+					if o.K == "closesend" && !moved {
+						moved = true
+						pos := g.pick(len(b) + 1)
+						b = append(b[:pos], append([]Op{o}, b[pos:]...)...)
+						continue
+					}
+					a2 = append(a2, o)
+				}
+				if len(a2) > 0 {
+					a = a2
+				}
+			}
 			c, r.Client2 = a, b
 		}
 	}
